@@ -129,4 +129,15 @@ PLAN = {
         "trusted_base": BASE_TRUST,
         "assumptions": BASE_ASSUME + ["what opening over a torn tail does is predicted by the driver from the tar-reader contract (Model/Cut.lean); writes after a torn, unaligned tail are outside the model (finding F19)"],
     },
+    "C10": {
+        "streams": {
+            "quick": [{"stream": "fault", "args": ["-n", "32", "-len", "8", "-workers", "16", "-watchdog", "4", "-rs", "20,3"], "timeout": 1500},
+                      fs(100, 14, "C10", wild=True)],
+            "thorough": [{"stream": "fault", "args": ["-n", "400", "-len", "10", "-workers", "16", "-watchdog", "5", "-rs", "20,1,3,7"], "timeout": 7000},
+                         fs(2000, 18, "C10", wild=True, timeout=6000)],
+        },
+        "generated": ["Stfs/Gen/Locks.lean (lock skeleton of every function in pkg/operations, pkg/tape/manager.go, pkg/fs)"],
+        "trusted_base": BASE_TRUST,
+        "assumptions": BASE_ASSUME + ["Go's sync.Mutex, defer and goroutine semantics; the skeleton abstraction (events inside non-error branches are unconditional, loop bodies run once) is sound for the balance at exits because loop bodies are lock-neutral (decided)", "source-read faults are not injected (the write cache is the source); open faults are covered statically only"],
+    },
 }
